@@ -26,7 +26,11 @@ RULE = ('cases = (sorted existing positions, batch of requested positions) as 64
         'and an independent Python oracle is applied. A case is non-trivial when existing rows were adjusted, the '
         'renumber-all path ran, or the batch has a tie/duplicate. Engine stream: random histories of AddRecord / '
         'BulkAddRecord / UpdateRecord(manualSort) / RemoveRecord on a table with manualSort and a PositionNumber '
-        'column, checked after every action against a reference row order.')
+        'column, checked after every action against a reference row order; plus MOVES of existing rows (UpdateRecord / '
+        'BulkUpdateRecord of manualSort to another row\'s position) into a spot crowded by ~40-160 inserts above one row: '
+        'each moved row must land immediately before the row whose position was requested, the others keep their order. '
+        'The order "position adjustments first, then the rows\' own action" in useractions.doBulkAddOrReplace / '
+        'doBulkUpdateRecord is pinned on the AST.')
 TRUSTED = ['Model/Relabel.v: hand-written Gallina model of relabeling.py (prepare_inserts, ListWithAdjustments, '
            '_group_insertions/ungroup, get_range, range_around_float) and of sortedcontainers as sorted lists; '
            'compared bit for bit with the implementation on every run',
@@ -606,8 +610,39 @@ def op_cases(ctx):
 
 # ---------------------------------------------------------------------------------------------
 
+def pin_glue(ctx):
+  """Tie for the glue that the model takes as given (Relabel.positions_after / the engine oracle: adjustments first,
+  then the new positions): in useractions.doBulkAddOrReplace and doBulkUpdateRecord the loop over extra_actions
+  (self._do_extra_doc_action) must come before the self._do_doc_action(action) that applies the rows' own action."""
+  import ast
+  import os
+  path = os.path.join(core.GRIST, 'useractions.py')
+  tree = ast.parse(open(path).read())
+  want = {'doBulkAddOrReplace': None, 'doBulkUpdateRecord': None}
+  for node in ast.walk(tree):
+    if isinstance(node, ast.FunctionDef) and node.name in want:
+      extra, own = [], []
+      for i, st in enumerate(node.body):
+        src = ast.dump(st)
+        if isinstance(st, ast.For) and "attr='_do_extra_doc_action'" in src and "id='extra_actions'" in src:
+          extra.append(i)
+        if isinstance(st, ast.Expr) and "attr='_do_doc_action'" in src and "args=[Name(id='action'" in src:
+          own.append(i)
+      want[node.name] = (extra, own)
+  for name, found in want.items():
+    if found is None or len(found[0]) != 1 or len(found[1]) != 1:
+      ctx.broken('tie:useractions.%s no longer has the pinned shape' % name,
+                 'expected exactly one top-level "for a in extra_actions: self._do_extra_doc_action(a)" and one '
+                 '"self._do_doc_action(action)"; found %r' % (found,))
+    elif not found[0][0] < found[1][0]:
+      ctx.broken('tie:useractions.%s applies the rows\' own action before the position adjustments' % name,
+                 'relabeling.prepare_inserts requires the adjustments to be applied first; statement order %r' % (found,))
+  ctx.extra['glue_pinned'] = sorted(want)
+
+
 def correspond(ctx):
   core.setup_impl_path()
+  pin_glue(ctx)
   cases = gen_cases(ctx)
   ctx._c20 = []
   coq = []
@@ -798,7 +833,10 @@ def check_table(e, refs, step_desc):
       return 'engine:duplicate', '%s: column %s holds duplicate positions' % (step_desc, col)
     actual = sorted(pos, key=lambda r: pos[r])
     if actual != ref.order:
-      return 'engine:order', '%s: rows ordered by %s are %r, expected %r' % (step_desc, col, actual[:12], ref.order[:12])
+      d = next((i for i, (x, y) in enumerate(zip(actual, ref.order)) if x != y), min(len(actual), len(ref.order)))
+      lo = max(0, d - 3)
+      return 'engine:order', '%s: rows ordered by %s differ from the expected order at place %d: ...%r, expected ...%r' % (
+        step_desc, col, d, actual[lo:d + 6], ref.order[lo:d + 6])
   return None
 
 
@@ -842,6 +880,37 @@ def run_history(hist):
         out = apply(e, ['AddRecord', 'T', None, {'manualSort': pos[target]}])
         refs['manualSort'].add(pos, [out.retValues[0]], [pos[target]])
         refs['P'].add(before['P'], [out.retValues[0]], [INF])
+      elif kind == 'beforerow':   # ['beforerow', row id]: insert a row immediately above a given row (crowds that spot)
+        pos = before['manualSort']
+        if op[1] not in pos:
+          continue
+        out = apply(e, ['AddRecord', 'T', None, {'manualSort': pos[op[1]]}])
+        refs['manualSort'].add(pos, [out.retValues[0]], [pos[op[1]]])
+        refs['P'].add(before['P'], [out.retValues[0]], [INF])
+      elif kind == 'drag':        # ['drag', col, anchor row id, from_off, [to_off...]]: MOVE existing rows: the rows
+        # from_off, from_off+1, ... places above the anchor row are dragged to just above the rows to_off places above
+        # it (UpdateRecord / BulkUpdateRecord of the position column with the target rows' positions)
+        col = op[1]
+        pos = before[col]
+        order = sorted(pos, key=lambda r: pos[r])
+        if op[2] not in pos:
+          continue
+        p0 = order.index(op[2])
+        rows, keys = [], []
+        for j, to_off in enumerate(op[4]):
+          src, dst = p0 - op[3] - j, p0 - to_off
+          if 0 <= src < len(order) and 0 <= dst < len(order) and order[src] not in rows and src != dst:
+            rows.append(order[src])
+            keys.append(pos[order[dst]])
+        if not rows:
+          continue
+        if len(rows) == 1:
+          apply(e, ['UpdateRecord', 'T', rows[0], {col: keys[0]}])
+        else:
+          apply(e, ['BulkUpdateRecord', 'T', rows, {col: keys}])
+        ref = refs[col]
+        ref.add(pos, [('moved', r) for r in rows], keys)
+        ref.order = [r[1] if isinstance(r, tuple) else r for r in ref.order if r not in rows]
       elif kind == 'move':        # ['move', col, [row choice...], [key pattern or ['at', k]]]
         col = op[1]
         if not rows_before:
@@ -946,6 +1015,27 @@ def engine_histories(ctx):
       hists.append([['add', [[None, None]] * (rowidx + 2)]] +
                    [['add', [[bits(pw), None]]]] * 52 + [['add', [[bits(nf(pw)), None]]]] * 51 +
                    [['remove', [rowidx]], ['add', [[bits(nf(pw)), None]] * m]])
+  # MOVES of existing rows into a crowded neighbourhood (the renumbered range may contain the moved row at its old
+  # place: the adjustments must be applied before the update): crowd the spot above row 4, and keep dragging rows
+  # from a few places further up to just above / next to it
+  for col in ('manualSort',):
+    for from_off, to_offs in ((3, [1]), (4, [0]), (2, [1]), (5, [1, 2])):
+      h = [['add', [[None, None]] * 6]]
+      for step in range(ctx.n(90, 160)):
+        h.append(['beforerow', 4])
+        if step >= 35 and step % 3 == 0:
+          h.append(['drag', col, 4, from_off, to_offs])
+      hists.append(h)
+  for _ in range(ctx.n(3, 30)):
+    h = [['add', [[None, None]] * 6]]
+    anchor = ctx.rng.randint(2, 6)
+    for step in range(ctx.n(80, 140)):
+      h.append(['beforerow', anchor])
+      if step >= 30 and ctx.rng.random() < 0.4:
+        k = ctx.rng.randint(1, 2)
+        h.append(['drag', 'manualSort', anchor, ctx.rng.randint(1, 6),
+                  [ctx.rng.randint(0, 3) for _ in range(k)]])
+    hists.append(h)
   nsteps = 0
   for h in hists:
     r = run_history(h)
